@@ -1,6 +1,8 @@
 package harness
 
 import (
+	"strconv"
+	"sync"
 	"crypto/aes"
 	"crypto/cipher"
 	"encoding/base64"
@@ -19,6 +21,7 @@ import (
 // AES-GCM ciphertexts: "flip" is expanded to EVERY byte of the ciphertext, "truncate" to every length.
 
 type c20Case struct {
+	Outcome string            `json:"outcome"`
 	Except  []string          `json:"except"`
 	Keylen  int               `json:"keylen"`
 	Class   string            `json:"class"`
@@ -78,6 +81,9 @@ func TestC20(t *testing.T) {
 		app.Get("/set", func(c fiber.Ctx) error {
 			for _, nm := range names {
 				c.Cookie(&fiber.Cookie{Name: nm, Value: c20Plain(cs.Class, nm)})
+			}
+			if cs.Outcome == "error" {
+				return fiber.NewError(403, "denied after the cookies were set")
 			}
 			return c.SendStatus(200)
 		})
@@ -235,4 +241,64 @@ func TestC20(t *testing.T) {
 		}
 	})
 	o.summary(map[string]any{"cases": n, "concrete_exchanges": nVariants, "with_tampered_or_foreign_value": nTamper, "violations": o.nV})
+}
+
+// TestC20Conc: the request-1 step of the specification (the handler sets cookies, the response carries exactly their
+// ciphertexts) performed by 8 clients at once on ONE middleware instance, each with its own values: every client must receive
+// the ciphertext of ITS value under ITS cookie names and nothing else.
+func TestC20Conc(t *testing.T) {
+	o := newOut(t)
+	defer o.close()
+	rawKey := make([]byte, 32)
+	for i := range rawKey {
+		rawKey[i] = byte(i*5 + 1)
+	}
+	app := fiber.New()
+	app.Use(encryptcookie.New(encryptcookie.Config{Key: base64.StdEncoding.EncodeToString(rawKey)}))
+	app.Get("/set", func(c fiber.Ctx) error {
+		w := c.Get("X-W")
+		c.Cookie(&fiber.Cookie{Name: "sid" + w, Value: "session-of-" + w + "-" + c.Get("X-I")})
+		c.Cookie(&fiber.Cookie{Name: "cart" + w, Value: "cart-of-" + w + "-" + c.Get("X-I")})
+		return c.SendStatus(200)
+	})
+	h := app.Handler()
+	const workers, rounds = 8, 1500
+	var wg sync.WaitGroup
+	var mu sync.Mutex
+	nReq := 0
+	for w := 0; w < workers; w++ {
+		wg.Add(1)
+		go func(w int) {
+			defer wg.Done()
+			ws := strconv.Itoa(w)
+			for i := 0; i < rounds; i++ {
+				is := strconv.Itoa(i)
+				rc := doReqH(h, "GET", "/set", "X-W", ws, "X-I", is)
+				got := map[string]string{}
+				rc.Response.Header.VisitAllCookie(func(k, v []byte) {
+					var ck fasthttp.Cookie
+					_ = ck.ParseBytes(v)
+					got[string(k)] = string(ck.Value())
+				})
+				bad := ""
+				if len(got) != 2 {
+					bad = fmt.Sprintf("%d cookies in the response, the handler set 2", len(got))
+				}
+				for name, want := range map[string]string{"sid" + ws: "session-of-" + ws + "-" + is, "cart" + ws: "cart-of-" + ws + "-" + is} {
+					if pt, ok := gcmOpen(rawKey, got[name]); !ok || pt != want {
+						bad = fmt.Sprintf("cookie %s is not the ciphertext of this client's value (opens: %v, %q)", name, ok, pt)
+					}
+				}
+				mu.Lock()
+				nReq++
+				mu.Unlock()
+				if bad != "" {
+					o.violation(map[string]any{"check": "concurrent-clients-mixed-up", "prop": "C20", "worker": w, "round": i, "observed": bad, "cookies": got})
+					return
+				}
+			}
+		}(w)
+	}
+	wg.Wait()
+	o.summary(map[string]any{"requests": nReq, "workers": workers, "violations": o.nV})
 }
